@@ -1,12 +1,16 @@
 #!/bin/bash
-# re-run every round-6 seed, rebased on /repo HEAD, against the final checks
+# usage: reverify_round.sh <round> [ids...]: re-run every seed of a round (seeded/round<N>/<id>/patch.diff), rebased on
+# /repo HEAD in a scratch worktree, against the current checks.  Nothing else may run in /verif meanwhile (coq/Gen/Facts.v
+# is regenerated per run).  Evidence files are restored afterwards: they must come from the clean tree.
+R=${1:?round}; shift
+IDS=${*:-$(cd /verif/seeded/round$R && ls)}
 cd /verif
-for i in $(seq -w 1 20); do
-  ID=C$i; WT=/tmp/rb-6-$ID
+for ID in $IDS; do
+  WT=/tmp/rb-$R-$ID; P=/verif/seeded/round$R/$ID/patch.diff
+  [ -f $P ] || { echo "== $ID no patch"; continue; }
   git -C /repo worktree remove --force $WT 2>/dev/null
   git -C /repo worktree add -q --detach $WT HEAD || { echo "$ID worktree failed"; continue; }
-  git -C /tmp/s6-$ID diff -- src > /tmp/rb6-$ID.diff
-  if ! git -C $WT apply --3way /tmp/rb6-$ID.diff >/dev/null 2>&1; then echo "== $ID patch does not apply on HEAD"; git -C /repo worktree remove --force $WT; continue; fi
+  if ! git -C $WT apply --3way $P >/dev/null 2>&1; then echo "== $ID patch does not apply on HEAD"; git -C /repo worktree remove --force $WT; continue; fi
   cp evidence/$ID.json /tmp/$ID.evid.save
   echo "== $ID"
   VERIF_REPO=$WT VERIF_SEED=1 timeout 3000 ./check $ID --tier quick 2>&1 | grep -v "^KNOWN" | tail -3 | cut -c1-220
@@ -14,3 +18,5 @@ for i in $(seq -w 1 20); do
   cp /tmp/$ID.evid.save evidence/$ID.json
   git -C /repo worktree remove --force $WT
 done
+# leave Gen/Facts.v as the clean tree has it
+python3 tools/gen_facts.py >/dev/null
